@@ -10,12 +10,12 @@ from mc import cal, core, draw, drawcases as dc, timegrid
 from mc.core import Acc, Hang, horizon
 
 ID = "C18"
-ZONES = ("America/New_York", "Asia/Kolkata", "Australia/Lord_Howe", "Pacific/Chatham", "Europe/Dublin", "America/St_Johns")
+ZONES = ("America/New_York", "Asia/Kolkata", "Australia/Lord_Howe", "Pacific/Chatham", "Europe/Dublin", "America/St_Johns", "right/UTC")
 RULE = ("E-INPUT x configurations: calendar operations (7 units x floor/ceil/round/offset/range) on every day of 2020-2021 x 2 "
-        "times of day and on every minute 00:00-04:59 of the seven 2021 DST transition dates of the zones, on every month boundary 1900-2100 (day/week/month/year units); TimeScale mapping / "
+        "times of day and on every minute 00:00-04:59 of the seven 2021 DST transition dates of the zones, on every month boundary 1900-2100 (day/week/month/year units), at 7 wall-clock times on every date 1900-2037 on which one of the zones changes its UTC offset (from tzdata; also one month before/after for month arithmetic; a third of them marked fold=1); TimeScale mapping / "
         "invert for instant pairs, ticks(m) and nice(m) over start instants x span ladder x counts, date-typed timeline items at every month boundary 1900-2100, and whole SVG/TikZ exports "
         "of datetime datasets - each executed under UTC and under America/New_York, Asia/Kolkata, Australia/Lord_Howe, "
-        "Pacific/Chatham, Europe/Dublin and America/St_Johns (process TZ switched with tzset), outputs compared byte for byte with the UTC run. "
+        "Pacific/Chatham, Europe/Dublin, America/St_Johns and right/UTC (a zone file with a leap-second table) (process TZ switched with tzset), outputs compared byte for byte with the UTC run. "
         "Non-trivial: cases whose instants fall inside a DST gap/overlap of some zone, or straddle a transition.")
 ASSUMPTIONS = ["switching TZ with time.tzset() inside a worker is equivalent to starting the process with that TZ (libc localtime/mktime)",
                "tzdata of the image defines the zones"]
@@ -33,15 +33,68 @@ def bounds(tier, seed):
 
 
 # ------------------------------------------------------------------ case lists (JSON-able descriptors)
+_TRANS = []
+
+
+def zone_transitions():
+    """Local wall-clock dates on which one of the zones changes its UTC offset, 1900-2037 (from the image's tzdata,
+    found by comparing the offset at successive UTC midnights) -> sorted list of dates (the UTC day and the day before,
+    so that the local date of the change is included whatever the offset)."""
+    if not _TRANS:
+        import zoneinfo
+        days = set()
+        for z in ZONES:
+            if z.startswith("right/"):
+                continue
+            tz = zoneinfo.ZoneInfo(z)
+            d = _dt.datetime(1900, 1, 1, tzinfo=_dt.timezone.utc)
+            prev = None
+            while d.year < 2038:
+                off = d.astimezone(tz).utcoffset()
+                if prev is not None and off != prev:
+                    days.add(d.date())
+                    days.add(d.date() - _dt.timedelta(days=1))
+                prev = off
+                d += _dt.timedelta(days=1)
+        _TRANS.extend(sorted(days))
+    return _TRANS
+
+
+TRANS_TODS = (timedelta(minutes=30), timedelta(hours=1, minutes=30), timedelta(hours=2, minutes=15), timedelta(hours=2, minutes=45),
+              timedelta(hours=3), timedelta(hours=3, minutes=30), timedelta(hours=23, minutes=30))
+
+
+def _shift_month(t, k):
+    y, m = divmod(t.year * 12 + t.month - 1 + k, 12)
+    try:
+        return t.replace(year=y, month=m + 1)
+    except ValueError:
+        return None
+
+
 def cal_instants(tier):
     out = []
+    # every change of UTC offset of the zones since 1900: wall-clock instants on those dates (inside and around the
+    # skipped / repeated hour), also one month earlier and later (month arithmetic that lands on such a date), every
+    # third instant marked as the second occurrence of its wall-clock time (fold=1)
+    k = 0
+    for day in zone_transitions():
+        for tod in TRANS_TODS:
+            t = datetime(day.year, day.month, day.day) + tod
+            k += 1
+            out.append(("trans", t.replace(fold=1) if k % 3 == 0 else t))
+            for dm in (-1, 1):
+                u = _shift_month(t, dm)
+                if u is not None:
+                    out.append(("transmonth", u))
     years = (2020, 2021) if tier == "quick" else tuple(range(1969, 1972)) + tuple(range(1999, 2005)) + tuple(range(2018, 2026)) + (2037, 2038, 2100)
     for y in years:
         for d in timegrid.all_days(y, y):
             out += [("day", d), ("day", d + timegrid.TOD1)]
     for day in DST_DAYS:
         for m in range(0, 300):
-            out.append(("dst", day + timedelta(minutes=m, seconds=(m * 7) % 60)))
+            t = day + timedelta(minutes=m, seconds=(m * 7) % 60)
+            out.append(("dst", t.replace(fold=1) if m % 4 == 3 else t))
     # every month boundary of two centuries (zones had one-off clock changes at such instants, e.g. 1941-10-01 in India)
     for y in range(1900, 2101):
         for mo in range(1, 13):
@@ -62,8 +115,14 @@ def run_case(case):
                 _, u, t = case
                 iv = d3_time[u]
                 f = iv.floor(t)
+                raw = []
+                for k in (1, -1):  # stepping from the instant itself (not from a boundary)
+                    try:
+                        raw.append(iv.offset(t, k))
+                    except Exception as e:
+                        raw.append(type(e).__name__)
                 return repr((f, iv.ceil(t), iv.round(t), iv.offset(f, 1), iv.offset(f, 7),
-                             iv.range(t, t + 3 * (iv.offset(f, 1) - f), 1)[:5], iv.range(f, iv.offset(f, 7), 2)))
+                             iv.range(t, t + 3 * (iv.offset(f, 1) - f), 1)[:5], iv.range(f, iv.offset(f, 7), 2), raw))
             if kind == "map":
                 _, t0, t1, q = case
                 s = TimeScale().domain([t0, t1]).range([0, 360])
@@ -102,11 +161,19 @@ def run_case(case):
 def all_cases(tier, seed):
     cases = []
     for tag, t in cal_instants(tier):
-        for u in (UNITS if tag != "month" else ("day", "week", "month", "year")):
-            cases.append((tag if tag != "month" else "day", ("cal", u, t)))
+        units = UNITS
+        if tag == "month":
+            units = ("day", "week", "month", "year")
+        elif tag == "transmonth":
+            units = ("month",)
+        elif tag == "trans":
+            units = ("hour", "day", "week", "month") if tier == "quick" else UNITS
+        for u in units:
+            cases.append(({"month": "day", "trans": "dst", "transmonth": "dst"}.get(tag, tag), ("cal", u, t)))
     ins = [datetime(1969, 12, 31, 23, 59, 59, 999000), datetime(1970, 1, 1), datetime(2000, 2, 29, 12), datetime(2021, 3, 14, 2, 30),
            datetime(2021, 11, 7, 1, 30), datetime(2021, 4, 4, 1, 45), datetime(2021, 10, 3, 2, 15), datetime(2021, 9, 26, 2, 50),
-           datetime(2038, 1, 19, 3, 14, 8), timegrid.seeded_start(seed)]
+           datetime(2038, 1, 19, 3, 14, 8), timegrid.seeded_start(seed),
+           datetime(2021, 11, 7, 1, 30, fold=1), datetime(2021, 4, 4, 1, 45, fold=1)]
     for t0 in ins:
         for t1 in ins:
             if t0 != t1:
@@ -130,7 +197,7 @@ def all_cases(tier, seed):
                 if sp >= 10:
                     cases.append((tag, ("nice", st, sp, m)))
     times = [datetime(2021, 3, 14, 2, 30), datetime(2021, 11, 7, 1, 30, 15), _dt.date(2021, 4, 4), datetime(2021, 10, 3, 2, 15),
-             datetime(2021, 9, 26, 3, 0, 0, 999000), datetime(2021, 6, 30, 23, 59, 59)]
+             datetime(2021, 9, 26, 3, 0, 0, 999000), datetime(2021, 6, 30, 23, 59, 59), datetime(2021, 11, 7, 1, 10, fold=1)]
     alpha = [(t, 40, x) for t in times for x in (None, "ab")]
     for seq in dc.sequences(alpha, 2):
         data = [dc.datum(l) for l in seq]
